@@ -11,6 +11,8 @@ ID = "C10"
 HEAVY = False
 NONLINEAR = "uf"
 BUDGET_S = {"quick": 230, "thorough": 3300}
+XCHECK_IGNORE = ("value_dtype", "single_value_type")
+CONCRETE_ONLY = ("values-are-float64",)     # evaluated on the cross-check vectors in the unpatched package (no symbolic counterpart)
 TIMEOUT_MS = {"quick": 20000, "thorough": 120000}
 MAX_TASK_S = {"quick": 100, "thorough": 1500}
 MAX_PATHS = 300000
@@ -26,7 +28,7 @@ ASSUMPTIONS = [
     "here they are only executed concretely for shape / exceptions / non-negativity of the drawn matrix",
     "the unbound C-method default np.random.Generator.random of additive() replaced in memory by the equivalent bound call",
 ]
-OUTSIDE = ["float64 dtype", "n>=6 (n>=5 quick)", "'convex' (external dependency absent)", "networkx / scipy internals",
+OUTSIDE = ["float64 dtype beyond the cross-check vectors (it exists only in the float64 world: evaluated there on the concrete vectors of every task)", "n>=6 (n>=5 quick)", "'convex' (external dependency absent)", "networkx / scipy internals",
            "covg_fn_generator beyond the path budget (bug-hunting only there, reported as cut)", "xos*_norm_additive with >=3 parts when NRA answers unknown"]
 STUBS = ["RNG stub", "np proxy", "SymArray", "generators.min/max symbolic", "math.exp wrapper (UF)"]
 
@@ -141,7 +143,9 @@ def scenario(pk, params, inp):
     rng1 = Stub(inp)
     g1 = gen(n, rng1)
     out = {"concrete": False, "players": int(g1.number_of_players), "values": _tab(pk, g1, n), "draws": rng1.k,
-           "all_known": bool(np.all(g1.are_values_known())) if hasattr(g1, "are_values_known") else True}
+           "all_known": bool(np.all(g1.are_values_known())) if hasattr(g1, "are_values_known") else True,
+           # the element type of the returned table exists only in the float64 world (object in the symbolic one)
+           "value_dtype": str(np.asarray(g1.get_values()).dtype), "single_value_type": type(g1.get_value(pk.coalitions.Coalition(2 ** n - 1))).__name__}
     # what the caller does with a returned game must not leak into later calls: mutate it through the public in-place API
     if hasattr(g1, "set_value"):
         C_ = pk.coalitions.Coalition
@@ -242,6 +246,8 @@ def claims(params, inp, out, lg):
             cl.append((f"value-is-sum-of-upper-triangle-weights:S={S}", lg.eq(v[S], ref)))
         return cl
     cl.append(("in-between-call-runs", "mid_exception" not in out))
+    if lg.mode == "conc":
+        cl.append(("values-are-float64", out.get("value_dtype") == "float64" and out.get("single_value_type") in ("float64", "float")))
     if "values2" in out:
         cl.append(("identically-seeded-calls-agree", lg.And([lg.eq(a, b) for a, b in zip(v, out["values2"])])))
     return cl
